@@ -338,6 +338,9 @@ func (k *Kube) Renotify(kind, key string) bool {
 }
 
 func (k *Kube) deliver(kind string, n note) {
+	if kind == KSecret && k.run.inReconcile {
+		k.run.midRecSecret = true
+	}
 	s := k.ks(kind)
 	k.delivering = true
 	defer func() { k.delivering = false }()
